@@ -316,8 +316,10 @@ def run(rep):
         cw = F.fn("tokeniser::consume_while")
         if cw is not None:
             s = show_fn(cw)
-            ok = s == "fn($it, $condition) {let $v = <T>::new(); loop if let Option::Some(&$ch) = <I>::peek(it) {if Fn::call(condition, (ch)) {{<T>::unwrap(Iterator::next(it)); <T, A>::push(v, ch)}} else {break}} else {break}; v}"
-            rep.check(ok, "PROGRESS", "PROGRESS/consume_while", cw.sp, "consume_while consumes one char per accepted cycle and stops at the first rejected char", s[:80])
+            itid = strip_ref(cw.thir["params"][0]["pat"]).get("id")
+            loops = [x for x in walk(cw.body) if x.get("k") in ("Loop", "For")]
+            ok = len(loops) == 1 and q.every_cycle_calls(loops[0], lambda x: call_is(x, "Iterator::next") and q.base_var(x["args"][0]) == itid)
+            rep.check(ok, "PROGRESS", "PROGRESS/consume_while", cw.sp, "consume_while: every cycle that does not leave the loop consumes a char from the iterator", s[:80])
     pe = F.fn("parser::parse_expr")
     pl = F.fn("parser::parse_led")
     pn = F.fn("parser::parse_nud")
@@ -330,12 +332,15 @@ def run(rep):
         rep.check(ok, "PROGRESS", "PROGRESS/" + nm, f.sp, nm + " starts by consuming a token (so each cycle of the Pratt loop makes progress)", show(b.get("scrut"))[:60] if b.get("k") == "Match" else b.get("k"))
     if pe is not None:
         s = show_fn(pe)
-        ok = s == "fn($it, $right_binding_power) {let $left = parser::parse_nud(it)?; loop if let Option::Some(&$next) = <I>::peek(it) {{if (right_binding_power Ge Token::binding_power(next)) {break}; left = parser::parse_led(left, it)?}} else {break}; Result::Ok(left)}"
-        rep.check(ok, "PROGRESS", "PROGRESS/parse_expr", pe.sp, "Pratt loop: peek; break or parse_led (consumes) ; no other cycle", s[:80])
+        itid = strip_ref(pe.thir["params"][0]["pat"]).get("id")
+        loops = [x for x in walk(pe.body) if x.get("k") in ("Loop", "For")]
+        ok = len(loops) == 1 and q.every_cycle_calls(loops[0], lambda x: call_is(x, "parser::parse_led") and q.base_var(x["args"][1]) == itid)
+        rep.check(ok, "PROGRESS", "PROGRESS/parse_expr", pe.sp, "Pratt loop: every cycle that does not leave the loop goes through parse_led (which consumes a token)", s[:80])
     rep.floor("PROGRESS", 14)
     if rep.tier == "thorough":
         import poscontrol
         poscontrol.panics(rep)
+        poscontrol.panic_forms(rep)
     rep.exhaustive = True
     rep.assumptions.append("native stack exhaustion and allocation failure are out of scope (nesting depth is bounded by the property)")
     rep.assumptions.append("termination of the parser's recursion (parse_nud re-parses a strictly shorter token vector) is argued, not checked")
